@@ -1,0 +1,5 @@
+//go:build !verif
+
+package ctree
+
+func verifAt(string, interface{}) {}
